@@ -6,6 +6,9 @@ from harness.common import Driver
 from parso.utils import split_lines, parse_version_string
 
 
+from harness import common as common_mod
+
+
 def versions():
     return impl.meta()['versions']
 
@@ -76,6 +79,8 @@ def run_tok(ctx, n, drv=None, stream='tok'):
     mm = []
     for i, (c, o) in enumerate(zip(cases, outs)):
         v, lines, start, inds, first, kind = c
+        if common_mod.WD['timeouts'] >= 3 and i > 0:
+            break           # the implementation keeps hanging: the mismatches collected so far carry the inputs
         e = impl.ans_tok(v, lines, start, inds, first)
         ctx.count(stream)
         if 'FSTRING' in e or 'INDENT' in e or 'ERRORTOKEN' in e or 'ERROR_DEDENT' in e:
@@ -107,6 +112,8 @@ def run_parse(ctx, n, drv=None, stream='parse', kinds=None, cases=None):
     mm = []
     for i, (c, o) in enumerate(zip(cases, outs)):
         v, rec, code, kind = c
+        if common_mod.WD['timeouts'] >= 3 and i > 0:
+            break
         e = impl.ans_text(v, rec, code)
         ctx.count(stream)
         if 'error_' in e or e.startswith('SYNTAXERR') or 'fstring' in e:
